@@ -292,7 +292,53 @@ func c01Cfg(depth int) *GenCfg {
 }
 
 // covering set: one value per (Go type, field, shape)
+// twins: for every struct, two embedded values that agree in every property except their ids, as
+// neighbours in a list (the decoders compare list members; distinct ids must never be merged), and every
+// list-typed property set but empty next to other properties (the empty list must not disturb the rest)
+func c01Twins(c *Ctx, emit func(*Ctx, interface{}, string)) {
+	g := &GenCfg{MaxDepth: 1, Density: 35, Links: true, Negatives: true, MultiLang: true, counter: 900000}
+	for _, typ := range allGoTypes {
+		for k := 0; k < 3; k++ {
+			a := g.genNode(c.R, typ, 1, true)
+			a["ptr"] = true
+			af := a["f"].(T)
+			af["ID"] = T{"s": g.nextID("twin")}
+			if _, ok := af["Type"]; !ok {
+				af["Type"] = T{"s": vocab[typ][0]}
+			}
+			if fieldKind(typ, "TotalItems") != "" {
+				af["TotalItems"] = T{"uint": 3 + k}
+			}
+			b := cloneTree(a).(T)
+			b["f"].(T)["ID"] = T{"s": g.nextID("twin")}
+			l := []interface{}{a, b}
+			emit(c, T{"t": "Object", "ptr": true, "f": T{"ID": T{"s": g.nextID("holder")}, "Type": T{"s": "Note"}, "Tag": T{"list": l}}}, "cover/twins/tag")
+			emit(c, T{"t": "OrderedCollection", "ptr": true, "f": T{"ID": T{"s": g.nextID("holder")}, "Type": T{"s": "OrderedCollection"}, "OrderedItems": T{"list": cloneTree(l)}}}, "cover/twins/orderedItems")
+			emit(c, T{"t": "Activity", "ptr": true, "f": T{"ID": T{"s": g.nextID("holder")}, "Type": T{"s": "Add"}, "Object": T{"items": cloneTree(l), "ptr": false}}}, "cover/twins/item-list")
+		}
+	}
+	for _, typ := range allGoTypes {
+		for _, fld := range fieldNames(typ) {
+			if fieldKind(typ, fld) != "items" {
+				continue
+			}
+			f := T{"ID": T{"s": g.nextID(typ)}, "Type": T{"s": vocab[typ][len(vocab[typ])-1]}, fld: T{"list": []interface{}{}}}
+			if fieldKind(typ, "Name") != "" {
+				f["Name"] = T{"nlv": []interface{}{[]interface{}{"-", "next to an empty list"}}}
+			}
+			if fieldKind(typ, "Summary") != "" {
+				f["Summary"] = T{"nlv": []interface{}{[]interface{}{"-", "summary"}}}
+			}
+			if fieldKind(typ, "URL") != "" {
+				f["URL"] = T{"iri": g.nextID("url")}
+			}
+			emit(c, T{"t": typ, "ptr": true, "f": f}, "cover/empty-list")
+		}
+	}
+}
+
 func c01Cover(c *Ctx, emit func(*Ctx, interface{}, string)) {
+	c01Twins(c, emit)
 	g := c01Cfg(1)
 	for _, typ := range allGoTypes {
 		for _, fld := range fieldNames(typ) {
@@ -398,7 +444,7 @@ func c01Cover(c *Ctx, emit func(*Ctx, interface{}, string)) {
 
 func init() {
 	campaigns["C01"] = func(c *Ctx) {
-		c.Rule = "covering set: one value per (Go struct, field, admissible shape: IRI / embedded object / link / list / type-less object; IRI list / mixed list / single embedded object; plain / tagged / multi-language text; +/- numbers; zoned instants; durations; sub-records; and every Object property as the only content of an embedded object without id and type, in a single-item position and as a list member), then values generated type-directed from the struct definitions (depth <= 2 quick / 3 thorough, each field set with probability 0.18, embedded objects by pointer and value, links, empty types on embedded objects, negative numbers, zones, multi-language text, distinct ids). Each value is encoded with MarshalJSON, decoded with UnmarshalJSON, and the decoded value's reflect dump is compared with the documented normal form of the original."
+		c.Rule = "covering set: one value per (Go struct, field, admissible shape: IRI / embedded object / link / list / type-less object; IRI list / mixed list / single embedded object; plain / tagged / multi-language text; +/- numbers; zoned instants; durations; sub-records; for every struct, twins that differ only in their ids as list neighbours; every list-typed property set but empty next to other properties; and every Object property as the only content of an embedded object without id and type, in a single-item position and as a list member), then values generated type-directed from the struct definitions (depth <= 2 quick / 3 thorough, each field set with probability 0.18, embedded objects by pointer and value, links, empty types on embedded objects, negative numbers, zones, multi-language text, distinct ids). Each value is encoded with MarshalJSON, decoded with UnmarshalJSON, and the decoded value's reflect dump is compared with the documented normal form of the original."
 		c01Cover(c, c01Case)
 		cfg := c01Cfg(c.N(2, 3))
 		for i := 0; i < c.N(2500, 60000); i++ {
